@@ -369,6 +369,10 @@ func (src *BatchRelease) ConvertTo(dst conversion.Hub) error {
 		if strings.EqualFold(src.Annotations[RolloutStyleAnnotation], string(BlueGreenRollingStyle)) {
 			obj.Spec.ReleasePlan.RollingStyle = v1beta1.BlueGreenRollingStyle
 		}
+		// without the annotation, honour the style written in the spec
+		if obj.Spec.ReleasePlan.RollingStyle == "" {
+			obj.Spec.ReleasePlan.RollingStyle = v1beta1.RollingStyleType(srcSpec.ReleasePlan.RollingStyle)
+		}
 
 		obj.Spec.ReleasePlan.EnableExtraWorkloadForCanary = srcSpec.ReleasePlan.EnableExtraWorkloadForCanary
 
